@@ -84,7 +84,7 @@ func (m *Mutex) Unlock() {
 	m.owner = nil
 	m.held = false
 	m.real.Unlock()
-	afterUnlock(callerSite(2))
+	afterUnlock(callerFunc(2))
 }
 
 // RWMutex replaces sync.RWMutex with Go's semantics: a waiting writer blocks new readers;
@@ -159,7 +159,7 @@ func (m *RWMutex) Unlock() {
 			m.readers++
 		}
 	}
-	afterUnlock(callerSite(2))
+	afterUnlock(callerFunc(2))
 }
 
 //go:norace
@@ -213,7 +213,7 @@ func (m *RWMutex) RUnlock() {
 	if s := cur(); s != nil && !s.inspect && s.current != nil {
 		s.current.held--
 	}
-	afterUnlock(callerSite(2))
+	afterUnlock(callerFunc(2))
 }
 
 //go:norace
